@@ -8,7 +8,7 @@
 (*   encoding   how the key material after the multicodec prefix is        *)
 (*              written: "canonical" (Ed25519 raw 32 bytes, compressed EC  *)
 (*              point, PKCS#1 DER) or an alternative ("uncompressed",      *)
-(*              "hybrid", "padded", "nonminimal", "short", "long",         *)
+(*              "hybrid", "padded", "nonminimal", "pkix", "short", "long", *)
 (*              "offcurve", "garbage")                                     *)
 (*   text       [prefix, mbase, code, alg, id, enc]                        *)
 (*              prefix in {"did:key:", "did:web:", "DID:KEY:", ""};        *)
@@ -42,6 +42,7 @@ EncApplies(alg, enc) ==
     [] enc \in {"uncompressed", "hybrid", "offcurve"} -> alg \in EcAlgs
     [] enc = "padded" -> TRUE
     [] enc = "nonminimal" -> alg = "rsa"
+    [] enc = "pkix" -> alg \in {"rsa"} \cup NistAlgs          \* the key wrapped in a SubjectPublicKeyInfo
     [] OTHER -> FALSE
 
 \* outcome of the per-codec unmarshaller on that encoding:
